@@ -17,7 +17,8 @@ LEVEL = "exploration"
 RULE = (
     "a case = one operation history (5..60 operations drawn from add/extend/remove/re-add/double-add/find/iterate/len/"
     "contains) on one utils.Plane with tape-chosen bounds and grid size, checked after every operation against a list "
-    "model with three queries (tape-chosen box, whole bounds, far outside), plus one evaluation of each affine law on "
+    "model with three queries (tape-chosen box, whole bounds, far outside); one history step in four first abandons a query after 0..3 "
+    "answers, one in seven reads two queries alternately (schedule from the tape) and compares with each read alone; plus one evaluation of each affine law on "
     "Fraction inputs. distinct = distinct operation histories; non-trivial = the history contains at least one removal "
     "followed by a find and at least 3 live objects at some point."
 )
@@ -27,7 +28,7 @@ ASSUMPTIONS = [
     "'properly overlap' = open-interval intersection as in Plane.find's own filter",
     "adding an object that is already present is a no-op; a re-inserted object may iterate at its first or its latest insertion position",
 ]
-PROBES = ["churn of 20-70 short-lived objects", "object outside bounds", "object across bounds", "negative coordinates", "zero-area box", "re-add after remove", "double add", "object spans >1 cell", "query on grid line"]
+PROBES = ["churn of 20-70 short-lived objects", "object outside bounds", "object across bounds", "negative coordinates", "zero-area box", "re-add after remove", "double add", "object spans >1 cell", "query on grid line", "query abandoned before its end", "two queries read alternately"]
 TIERS = {
     "quick": {"batches": 16, "runs": 2500, "budget_s": 90},
     "thorough": {"batches": 128, "runs": 20000, "budget_s": 900},
@@ -113,7 +114,7 @@ def gen_box(t, bounds, d):
 def frac(t):
     f = Fraction(t.rint(-40, 40, "fr.n"), t.pick([1, 2, 3, 4, 7, 8], "fr.d"))
     if t.coin(6, 100, "fr.big"):
-        f *= t.pick([10 ** 6, 2 ** 31, 2 ** 33 + 1, 10 ** 12, Fraction(1, 10 ** 9)], "fr.scale")  # far outside any page
+        f *= t.pick([10 ** 6, 2 ** 31, 2 ** 33 + 1, 10 ** 12, Fraction(1, 10 ** 9), 10 ** 30, Fraction(1, 10 ** 30), 2 ** 100], "fr.scale")  # far outside any page (and any fixed limit)
     return f
 
 
@@ -288,6 +289,29 @@ def run(tape, ctx, item=None):
         if live and t.coin(40, 100, "q.hug"):
             o = t.pick(seq, "q.obj")  # a query hugging a live object (touching edges, epsilon inside)
             queries.append((o.x0 - t.pick([0, 0.25, -0.25], "q.dx"), o.y0 - 0.25, o.x1 + t.pick([0, 0.25], "q.dx2"), o.y1 + 0.25))
+        if t.coin(25, 100, "q.abandon"):
+            # a query whose answer is not read to the end (next(), any(), a break): the queries after it owe it nothing
+            g = plane.find(t.pick(queries, "q.abandon.q"))
+            for _ in range(t.rint(0, 3, "q.abandon.n")):
+                next(g, None)
+            del g
+            ctx.probe("query abandoned before its end")
+        if t.coin(15, 100, "q.inter"):
+            # two queries of one plane read alternately: each gives what it gives when read alone
+            qa, qb = t.pick(queries, "q.inter.a"), t.pick(queries, "q.inter.b")
+            ga, gb = plane.find(qa), plane.find(qb)
+            ra, rb = [], []
+            live_g = [(ga, ra), (gb, rb)]
+            while live_g:
+                g, r = live_g[t.draw(len(live_g), "q.inter.turn")]
+                try:
+                    r.append(next(g))
+                except StopIteration:
+                    live_g.remove((g, r))
+            alone = (list(plane.find(qa)), list(plane.find(qb)))
+            if (ra, rb) != alone:
+                devs.append(Dev("C20:find-interleaved", "find(%r) and find(%r) read alternately give %r and %r, read alone %r and %r; history=%s" % (qa, qb, ra, rb, alone[0], alone[1], hist)))
+            ctx.probe("two queries read alternately")
         for q in queries:
             got = list(plane.find(q))
             ideal = [o for o in seq if overlaps(o, q)]
